@@ -206,7 +206,12 @@ def ini_rules(ck, fn):
     # every QSettings::value() call of the configuration unit must be one of the recognised reads; otherwise the keys are read
     # through something the rule does not follow (an accessor object, a template) and "key never read" would be a guess
     seen_sites = {(r["node"].get("l"), r["node"].get("c")) for r in reads.values()}
-    all_sites = {(n.get("l"), n.get("c")) for f_ in F.fns.values() if (f_.file or "") == (fn.file or "") and f_.body is not None for n in f_.calls("QSettings::value")}
+    # "of the configuration unit": what configure() itself reaches (helpers, lambdas, accessor objects) — in the header-only configuration
+    # every function of the library lives in one file, so the file is no criterion
+    reach_ = F.reachable_from([fn], virtual=False)
+    unit_fns = [f_ for f_ in F.fns.values() if f_.body is not None and (f_.id in reach_ or f_.lambda_of in reach_ or
+                ((f_.file or "") == (fn.file or "") and not (fn.file or "").endswith("/qtlogger.h")))]
+    all_sites = {(n.get("l"), n.get("c")) for f_ in unit_fns for n in f_.calls("QSettings::value")}
     stray = sorted(all_sites - seen_sites)
     if stray:
         raise AnalysisBroken("settings are read at %d site(s) the rule does not follow (e.g. line %s): through an accessor object or a helper that is not spliced" % (len(stray), stray[0][0]))
